@@ -443,6 +443,9 @@ class Symbols:
         return "?"
 
 
+GENERIC_HELPERS = ("error", "error_at", "error_tok", "warn_tok", "verror_at", "equal", "skip", "consume")
+
+
 def crash_site(sym, trace):
     """-> (class override or None, site)"""
     fr = sym.frames(trace)
@@ -451,6 +454,8 @@ def crash_site(sym, trace):
     if "overflow=1" in trace:
         cyc = sorted(set(f for f in fr if fr.count(f) >= 3)) or sorted(set(fr[:4]))
         return "stack-overflow", "+".join(cyc[:3])
+    if fr[0] in GENERIC_HELPERS and len(fr) > 1:
+        return None, fr[0] + "<-" + fr[1]      # a NULL token handed to a reporting/matching helper: name the caller
     return None, fr[0]
 
 
